@@ -356,6 +356,9 @@ func (c *child) genLayout(r *vlib.PRNG) layoutSpec {
 	}
 	for i := 0; i < nb; i++ {
 		sz := sizeChoices[r.Intn(len(sizeChoices))]
+		if c.path == "dma" && r.Chance(1, 2) {
+			sz = pageSize * (1 + r.Intn(maxPages)) // adjacent full extents: in-bounds ranges can span buffers
+		}
 		if r.Chance(1, 5) {
 			sz = 1 + r.Intn(5*pageSize)
 		}
@@ -736,9 +739,17 @@ func (th *thread) check(m *ctxModel, pd *pendingRead) {
 			symptom = "h2d-bytes-lost"
 		}
 	}
-	if c.path == "dma" && (m.flushWouldBeMissed(pd.op.Off, pd.op.N) || (w != nil && w.Kind == "h2d" && m.flushWouldBeMissed(w.Off, w.N))) {
-		symptom = "stale-cache-vs-copy"
-		culprit = "memRangeOverlap-misses-strict-containment"
+	if c.path == "dma" {
+		missed := m.flushWouldBeMissed(pd.op.Off, pd.op.N)
+		for k := 0; k < min(pd.op.Idx, len(m.ops)) && !missed; k++ {
+			if h := m.ops[k]; h.Kind == "h2d" && o >= h.Off && o < h.Off+h.N && m.flushWouldBeMissed(h.Off, h.N) {
+				missed = true
+			}
+		}
+		if missed {
+			symptom = "stale-cache-vs-copy"
+			culprit = "memRangeOverlap-misses-strict-containment"
+		}
 	}
 	key := fmt.Sprintf("C11|%s|%s|%s", c.path, symptom, strings.Split(culprit, "/")[0])
 	var wstr, lwstr string
@@ -835,6 +846,30 @@ func (th *thread) kernelRange(m *ctxModel) (int, int) {
 	if th.c.path == "dma" {
 		maxE = 512
 	}
+	if th.c.path == "dma" {
+		// inside the requested extent of one buffer (or of adjacent full ones)
+		for try := 0; try < 40; try++ {
+			nE := 64 * (1 + th.r.Intn(maxE/64))
+			b := m.bufs[th.r.Intn(len(m.bufs))]
+			if b.Size < 256 {
+				continue
+			}
+			off := b.Off + 4*th.r.Intn(b.Size/4)
+			if th.r.Bool() {
+				off = b.Off
+			}
+			if off+4*nE > S {
+				continue
+			}
+			if !m.classify(off, 4*nE).Slack {
+				return off, nE
+			}
+			if n2 := (b.Off + b.Size - off) / 256 * 64; n2 >= 64 {
+				return off, n2
+			}
+		}
+		return -1, 0
+	}
 	for try := 0; try < 20; try++ {
 		nE := 64 * (1 + th.r.Intn(maxE/64))
 		if 4*nE > S {
@@ -877,10 +912,14 @@ func (th *thread) step() {
 		verifyEvery = 3
 	}
 	dice := r.Intn(100)
+	hW, dW := 45, 35
+	if c.path == "dma" {
+		hW, dW, kernelW = 35, 30, 25
+	}
 	switch {
-	case dice < 45: // H2D
+	case dice < hW: // H2D
 		t := elemTypes[r.Intn(len(elemTypes))]
-		off, n := m.pickRange(r, t, maxLen)
+		off, n := m.pickRange(r, t, maxLen, c.path == "dma")
 		if off < 0 {
 			return
 		}
@@ -894,16 +933,19 @@ func (th *thread) step() {
 				th.drainAll()
 			}
 		}
-	case dice < 80: // D2H
+	case dice < hW+dW: // D2H
 		t := elemTypes[r.Intn(len(elemTypes))]
-		off, n := m.pickRange(r, t, maxLen)
+		off, n := m.pickRange(r, t, maxLen, c.path == "dma")
 		if off < 0 {
 			return
 		}
 		th.d2h(m, off, n, t, r.Chance(1, 4), "d2h", -1)
 		th.nOps++
-	case dice < 80+kernelW:
+	case dice < hW+dW+kernelW:
 		off, nE := th.kernelRange(m)
+		if off < 0 {
+			return
+		}
 		th.kernel(m, off, nE, kern.Op(r.Intn(3)), 1+2*uint32(r.Intn(1000)), false)
 		// a D2H of (part of) the kernel's range right behind it, same or other queue
 		if r.Chance(2, 3) {
